@@ -16,7 +16,7 @@
 
 use super::super::iana::{OptionCode, SecurityAlgorithm};
 use super::super::message_builder::OptBuilder;
-use super::super::wire::{Compose, Composer, ParseError};
+use super::super::wire::{Composer, ParseError};
 use super::{
     BuildDataError, ComposeOptData, LongOptData, Opt, OptData, ParseOptData,
 };
@@ -90,8 +90,8 @@ pub type N3u<Octs> = Understood<N3uVariant, Octs>;
 impl<Variant, Octs> Understood<Variant, Octs> {
     /// Creates a new value from an octets sequence.
     ///
-    /// Returns an error if the slice does not contain a value in wire
-    /// format or is longer than 65,535 octets.
+    /// Returns an error if the octets sequence is longer than 65,535
+    /// octets.
     pub fn from_octets(octets: Octs) -> Result<Self, ParseError>
     where
         Octs: AsRef<[u8]>,
@@ -104,8 +104,8 @@ impl<Variant, Octs> Understood<Variant, Octs> {
     ///
     /// # Safety
     ///
-    /// The caller needs to make sure that the slice contains a sequence of
-    /// 16 bit values that is no longer than 65,535 octets.
+    /// The caller needs to make sure that the octets sequence is no longer
+    /// than 65,535 octets.
     pub unsafe fn from_octets_unchecked(octets: Octs) -> Self {
         Understood {
             marker: PhantomData,
@@ -115,7 +115,7 @@ impl<Variant, Octs> Understood<Variant, Octs> {
 
     /// Creates a new value from a sequence of algorithms.
     ///
-    /// The operation will fail if the iterator returns more than 32,767
+    /// The operation will fail if the iterator returns more than 65,535
     /// algorithms.
     pub fn from_sec_algs(
         sec_algs: impl IntoIterator<Item = SecurityAlgorithm>,
@@ -137,8 +137,7 @@ impl<Variant, Octs> Understood<Variant, Octs> {
 impl<Variant> Understood<Variant, [u8]> {
     /// Creates a new value from an octets slice.
     ///
-    /// Returns an error if the slice does not contain a value in wire
-    /// format or is longer than 65,535 octets.
+    /// Returns an error if the slice is longer than 65,535 octets.
     pub fn from_slice(slice: &[u8]) -> Result<&Self, ParseError> {
         Understood::<Variant, _>::check_slice(slice)?;
         Ok(unsafe { Self::from_slice_unchecked(slice) })
@@ -148,8 +147,8 @@ impl<Variant> Understood<Variant, [u8]> {
     ///
     /// # Safety
     ///
-    /// The caller needs to make sure that the slice contains a sequence of
-    /// 16 bit values that is no longer than 65,535 octets.
+    /// The caller needs to make sure that the slice is no longer than
+    /// 65,535 octets.
     #[must_use]
     pub unsafe fn from_slice_unchecked(slice: &[u8]) -> &Self {
         // SAFETY: Understood has repr(transparent)
@@ -157,11 +156,11 @@ impl<Variant> Understood<Variant, [u8]> {
     }
 
     /// Checks that a slice contains a correctly encoded value.
+    ///
+    /// The data is a list of algorithm numbers of one octet each, so any
+    /// slice that fits into an option is fine.
     fn check_slice(slice: &[u8]) -> Result<(), ParseError> {
         LongOptData::check_len(slice.len())?;
-        if !slice.len().is_multiple_of(usize::from(u16::COMPOSE_LEN)) {
-            return Err(ParseError::form_error("invalid understood data"));
-        }
         Ok(())
     }
 }
